@@ -12,6 +12,8 @@ Gkv(k) == [op |-> "get_key_value", k |-> k, tag |-> 0, v |-> 0, pl |-> 0, f |-> 
 Has(k) == [op |-> "contains_key", k |-> k, tag |-> 0, v |-> 0, pl |-> 0, f |-> "-"]
 Inc(k, v) == [op |-> "compute", k |-> k, tag |-> 0, v |-> v, pl |-> 0, f |-> "inc"]
 CNone(k) == [op |-> "compute", k |-> k, tag |-> 0, v |-> 0, pl |-> 0, f |-> "none"]
+Clear == [op |-> "clear", k |-> 1, tag |-> 0, v |-> 0, pl |-> 0, f |-> "-"]
+Iter == [op |-> "iter", k |-> 1, tag |-> 0, v |-> 0, pl |-> 0, f |-> "-"]
 E(k, v) == [k |-> k, v |-> v, pl |-> 0]
 
 \* all keys in one bin / alternating bins
@@ -30,6 +32,14 @@ ProgRz1 == (1 :> <<Ins(2, 21)>>) @@ (2 :> <<Ins(3, 31)>>) @@ (3 :> <<Get(1), Get
 ProgRz2 == (1 :> <<Ins(3, 31)>>) @@ (2 :> <<Rem(1)>>) @@ (3 :> <<Inc(2, 51)>>)
 \* ---- two generations 1 -> 2 -> 4: a helper delayed in help_transfer (finding F6 when STAMPCHECK = FALSE)
 ProgF6 == (1 :> <<Ins(1, 11), Ins(2, 12)>>) @@ (2 :> <<Ins(3, 23)>>) @@ (3 :> <<Ins(4, 34)>>)
+\* ---- iterators: across one resize; across two nested resizes; against removals / re-insertions
+ProgIt1 == (1 :> <<Iter>>) @@ (2 :> <<Ins(2, 21)>>) @@ (3 :> <<Ins(3, 31)>>)
+ProgIt2 == (1 :> <<Iter>>) @@ (2 :> <<Ins(2, 21), Ins(3, 22), Ins(4, 23)>>)
+ProgIt3 == (1 :> <<Iter>>) @@ (2 :> <<Rem(1), Ins(1, 21)>>) @@ (3 :> <<Ins2(2, 31), Rem(3)>>)
+\* ---- clear() racing a resize, an insert and an iterator
+ProgClr1 == (1 :> <<Clear>>) @@ (2 :> <<Ins(2, 21)>>) @@ (3 :> <<Ins(1, 41)>>)
+ProgClr2 == (1 :> <<Clear>>) @@ (2 :> <<Iter>>) @@ (3 :> <<Ins(3, 31)>>)
+Init3 == <<E(1, 10), E(2, 20), E(3, 30)>>
 Init1 == <<E(1, 10)>>
 Init2 == <<E(1, 10), E(2, 20)>>
 Init0 == <<>>
